@@ -56,6 +56,9 @@ SETUPS = {
     "noselect-restart": [{"s": "B", "op": "delete", "m": "p"}, {"s": "env", "op": "restart"}, {"s": "A", "op": "select", "m": "INBOX"}],
     "idling": [{"s": "A", "op": "select", "m": "INBOX"}, {"s": "A", "op": "idle"}],
     "after-restart": [{"s": "A", "op": "select", "m": "INBOX"}, {"s": "env", "op": "restart"}],
+    # the server counts repeated SELECTs of the selected mailbox (it says BYE after too many): ten of them, the cell's
+    # command is the next one
+    "reselected-10x": [{"s": "A", "op": "select", "m": "INBOX"}] * 11,
 }
 
 NAMES = ["INBOX", "a", "e", "nosuch", "p", '""', "a/b", "x", "p/q"]
@@ -87,7 +90,12 @@ def commands():
             out.append(f"{u}SEARCH {u}{st}")
         out.append(f"UID EXPUNGE {st}")
     out += ["SEARCH ALL", "SEARCH BEFORE 31-Feb-2020", "FETCH 1 BODY[9]", "FETCH 1 (BODY[1.2.HEADER])", "STORE 1 +FLAGS (\\Recent)", "STORE 1 FLAGS ()",
-            "COPY 1 INBOX", "MOVE 1 INBOX", "BOGUS", "FETCH", "UID", "UID NOOP"]
+            "COPY 1 INBOX", "MOVE 1 INBOX", "BOGUS", "FETCH", "UID", "UID NOOP",
+            'ID ("name" "Mac OS X Mail" "version" "16.0")', 'ID ("name" "iPhone Mail" "os" "iOS")', 'LIST (SPECIAL-USE) "" "*"',
+            'LIST "" ("a" "p/%" "nosuch")', 'LIST "" "*" RETURN (SPECIAL-USE SUBSCRIBED)', 'LIST (REMOTE) "" "%"', 'LIST "" "%" RETURN (STATUS (UIDVALIDITY RECENT))',
+            "FETCH 1 (BODY[2.MIME] BODY[1.HEADER.FIELDS (TO)] BODY[TEXT]<0.5>)", "FETCH 1:* (UID RFC822.SIZE INTERNALDATE ENVELOPE BODYSTRUCTURE)",
+            "SEARCH CHARSET UTF-8 TEXT x", "SEARCH CHARSET bogus ALL", "SEARCH OR (NOT ALL) (LARGER 1 SMALLER 99999) UID 1:*", "STARTTLS", "ENABLE CONDSTORE",
+            "STORE 1 +FLAGS.SILENT (a b c d e f g h)", "UID STORE 1:* -FLAGS (\\Deleted)"]
     return out
 
 
